@@ -4,6 +4,7 @@ import (
 	"fmt"
 	"go/token"
 	"go/types"
+	"strings"
 
 	"golang.org/x/tools/go/ssa"
 )
@@ -142,6 +143,12 @@ func runC11Stop(c *Ctx) {
 			if !isErrorType(v.Type()) {
 				c.Triv(call.Pos(), fn, construct, "callee returns no error")
 				return
+			}
+			if isEntry {
+				if hcall, ai := errClassifierCall(v); hcall != nil {
+					runC11StopClassified(c, call, hcall, ai, v, fn, construct, isCBCall)
+					return
+				}
 			}
 			cbAfter, rets := exploreAfter(call, v, true, isCBCall)
 			retAls0 := exploreRetAliases
@@ -291,6 +298,15 @@ func exploreAfterF(call ssa.CallInstruction, v ssa.Value, nonNil bool, isCB func
 			continue
 		}
 		succs := b.Succs
+		if ifi, ok := b.Instrs[len(b.Instrs)-1].(*ssa.If); ok && exploreKnown != nil {
+			if val, known := exploreKnown(ifi.Cond); known {
+				if val {
+					succs = b.Succs[:1]
+				} else {
+					succs = b.Succs[1:]
+				}
+			}
+		}
 		if ifi, ok := b.Instrs[len(b.Instrs)-1].(*ssa.If); ok {
 			if bo, ok := ifi.Cond.(*ssa.BinOp); ok && ((isV(bo.X) && isNilConst(bo.Y)) || (isV(bo.Y) && isNilConst(bo.X))) {
 				takeTrue := (bo.Op == token.NEQ) == nonNil
@@ -398,4 +414,146 @@ func mayReturnStop(f *ssa.Function, isCB func(ssa.CallInstruction) bool, isStopT
 		}
 	})
 	return res
+}
+
+// exploreKnown: optional oracle for branch conditions whose value is known on
+// the explored scenario (set by rules that summarise a helper).
+var exploreKnown func(cond ssa.Value) (bool, bool)
+
+// errClassifierCall: the callback's error v is handed, and only handed, to a
+// helper added since the baseline (one that classifies it: nil / Stop / other).
+func errClassifierCall(v ssa.Value) (*ssa.Call, int) {
+	refs := v.Referrers()
+	if refs == nil || len(*refs) != 1 {
+		return nil, 0
+	}
+	hc, ok := (*refs)[0].(*ssa.Call)
+	if !ok {
+		return nil, 0
+	}
+	h := hc.Call.StaticCallee()
+	if h == nil || !isNewHelper(h) || h.Parent() != nil {
+		return nil, 0
+	}
+	for i, a := range hc.Call.Args {
+		if a == v {
+			return hc, i
+		}
+	}
+	return nil, 0
+}
+
+// errClassSummary interprets a classifying helper on the three kinds of
+// callback error: "nil", "stop" (errors.Is(err, Stop) holds) and "other".
+func errClassSummary(p *Program, h *ssa.Function, argIdx int) (map[string][]k4val, string) {
+	out := map[string][]k4val{}
+	for _, cl := range []string{"nil", "stop", "other"} {
+		key := fmt.Sprintf("$%d", argIdx)
+		m := &Model{Num: map[string]float64{}, Bool: map[string]bool{"(" + key + "==nil)": cl == "nil", "(nil==" + key + ")": cl == "nil"}, Missing: map[string]bool{}}
+		it := &k4interp{p: p, m: m, mem: map[string]k4val{}}
+		it.answer = func(k string, isBool bool) (k4val, bool) {
+			if isBool && strings.HasPrefix(k, "errors.Is("+key+",") {
+				return k4val{kind: 1, b: cl == "stop"}, true
+			}
+			return k4val{}, false
+		}
+		var args []k4val
+		for i := range h.Params {
+			args = append(args, k4val{kind: 3, s: fmt.Sprintf("$%d", i)})
+		}
+		res, err := it.call(h, args, nil)
+		if err != nil {
+			return nil, fmt.Sprintf("cannot interpret %s on a %s error: %v %s", FuncName(h), cl, err, missingList(m))
+		}
+		out[cl] = res
+	}
+	return out, ""
+}
+
+func runC11StopClassified(c *Ctx, call ssa.CallInstruction, hcall *ssa.Call, argIdx int, v ssa.Value, fn, construct string, isCB func(ssa.CallInstruction) bool) {
+	h := hcall.Call.StaticCallee()
+	sums, why := errClassSummary(c.P, h, argIdx)
+	if why != "" {
+		c.Undecided(call.Pos(), fn, construct, why)
+		return
+	}
+	errKey := fmt.Sprintf("$%d", argIdx)
+	// the value of a result of the helper (or the helper's single result) in class cl
+	valueOf := func(x ssa.Value, cl string) (k4val, bool) {
+		if x == ssa.Value(hcall) && len(sums[cl]) == 1 {
+			return sums[cl][0], true
+		}
+		if ex, ok := x.(*ssa.Extract); ok && ex.Tuple == ssa.Value(hcall) && ex.Index < len(sums[cl]) {
+			return sums[cl][ex.Index], true
+		}
+		return k4val{}, false
+	}
+	defer func() { exploreKnown = nil }()
+	problem := ""
+	for _, cl := range []string{"stop", "other"} {
+		exploreKnown = func(cond ssa.Value) (bool, bool) {
+			neg := false
+			for {
+				u, ok := cond.(*ssa.UnOp)
+				if !ok || u.Op != token.NOT {
+					break
+				}
+				cond, neg = u.X, !neg
+			}
+			if kv, ok := valueOf(cond, cl); ok && kv.kind == 1 {
+				return kv.b != neg, true
+			}
+			// result != nil / result == nil on the helper's error result
+			if bo, ok := cond.(*ssa.BinOp); ok && (bo.Op == token.EQL || bo.Op == token.NEQ) {
+				x, y := bo.X, bo.Y
+				if isNilConst(x) {
+					x, y = y, x
+				}
+				if isNilConst(y) {
+					if kv, ok := valueOf(x, cl); ok && kv.kind == 3 {
+						isNil := kv.s == "nil" && !kv.addr
+						return (isNil == (bo.Op == token.EQL)) != neg, true
+					}
+				}
+			}
+			return false, false
+		}
+		cbs, rets := exploreAfterF(hcall, v, true, isCB, nil)
+		for _, c2 := range cbs {
+			problem = fmt.Sprintf("another callback invocation at %s is reachable after the callback returned a non-nil error (%s class, as classified by %s)", c.P.Pos(c2.Pos()), cl, FuncName(h))
+		}
+		for _, r := range rets {
+			for _, er := range r.Results {
+				if !isErrorType(er.Type()) {
+					continue
+				}
+				var got string
+				switch kv, ok := valueOf(er, cl); {
+				case er == v:
+					got = "itself"
+				case isNilConst(er):
+					got = "nil"
+				case ok && kv.kind == 3 && kv.s == "nil" && !kv.addr:
+					got = "nil"
+				case ok && kv.kind == 3 && kv.s == errKey:
+					got = "itself"
+				default:
+					got = "a different value"
+				}
+				switch {
+				case cl == "stop" && got != "nil":
+					problem = fmt.Sprintf("entry function returns %s at %s when the callback returned Stop: Stop would surface as an error", got, c.P.Pos(r.Pos()))
+				case cl == "other" && got == "nil":
+					problem = fmt.Sprintf("entry function returns nil at %s for a non-nil callback error that is not Stop: the error is swallowed", c.P.Pos(r.Pos()))
+				case cl == "other" && got != "itself":
+					problem = fmt.Sprintf("returns a different error value at %s (must be the callback's own error, unchanged)", c.P.Pos(r.Pos()))
+				}
+			}
+		}
+	}
+	if problem != "" {
+		c.Bad(call.Pos(), fn, construct, problem)
+		return
+	}
+	c.OK(call.Pos(), fn, construct, "the error is classified by "+FuncName(h)+" (interpreted on nil / Stop / other): after Stop or an error no callback call is reachable; Stop maps to nil, other errors are returned unchanged")
 }
